@@ -172,6 +172,8 @@ def compare(ctx, op, a, b):
 def identical(ctx, a, b):
     if a is b:
         return True
+    if isinstance(a, Builtin) and isinstance(b, Builtin):
+        return a.name == b.name  # `type(x) is str`: a builtin is one object however often it is looked up
     if a is None or b is None:
         if isinstance(a, Sym) and hasattr(a, 'is_none'):
             return a.is_none(ctx)
